@@ -94,7 +94,7 @@ theorem c07_start_le_end (env : Env) (hw : env.Wf) {i j : Nat} (hij : i ≤ j) (
     (env.mkSpan i j).1 ≤ (env.mkSpan i j).2 := by
   cases hk : env.kind with
   | slice => rw [mkSpan_slice env hk]; exact hij
-  | str => rw [mkSpan_str env hk]; exact strOff_mono _ hij
+  | str => rw [mkSpan_str env hk]; exact strOff_le_of_le _ hij
   | mapped =>
     obtain ⟨hlen, w⟩ := hw hk
     by_cases he : i = j
@@ -151,7 +151,7 @@ theorem c07_str_boundaries (env : Env) (hk : env.kind = .str) (i j : Nat) :
 
 theorem c07_str_nonempty (env : Env) (hk : env.kind = .str) {i j : Nat} (hij : i < j) (hj : j ≤ env.toks.length) :
     (env.mkSpan i j).1 < (env.mkSpan i j).2 := by
-  rw [mkSpan_str env hk]; exact strOff_strict _ hij hj
+  rw [mkSpan_str env hk]; exact strOff_lt_of_lt _ hij hj
 
 /-- tokens with their own spans: a non-empty match spans from the start of its first consumed token to the end of its last -/
 theorem c07_mapped_nonempty (env : Env) (hk : env.kind = .mapped) (hw : env.Wf) {i j : Nat} (hij : i < j)
@@ -188,7 +188,7 @@ theorem c07_nested (env : Env) (hw : env.Wf) {i i' j' j : Nat} (h1 : i ≤ i') (
     (env.mkSpan i j).1 ≤ (env.mkSpan i' j').1 ∧ (env.mkSpan i' j').2 ≤ (env.mkSpan i j).2 := by
   cases hk : env.kind with
   | slice => simp only [mkSpan_slice env hk]; exact ⟨h1, h3⟩
-  | str => simp only [mkSpan_str env hk]; exact ⟨strOff_mono _ h1, strOff_mono _ h3⟩
+  | str => simp only [mkSpan_str env hk]; exact ⟨strOff_le_of_le _ h1, strOff_le_of_le _ h3⟩
   | mapped =>
     obtain ⟨hlen, w⟩ := hw hk
     rw [mkSpan_mapped_nonempty env hk (show i < j by omega) (by omega),
@@ -201,7 +201,7 @@ theorem c07_ordered (env : Env) (hw : env.Wf) {i j i' j' : Nat} (h1 : i < j) (h2
     (env.mkSpan i j).2 ≤ (env.mkSpan i' j').1 := by
   cases hk : env.kind with
   | slice => simp only [mkSpan_slice env hk]; exact h2
-  | str => simp only [mkSpan_str env hk]; exact strOff_mono _ h2
+  | str => simp only [mkSpan_str env hk]; exact strOff_le_of_le _ h2
   | mapped =>
     obtain ⟨hlen, w⟩ := hw hk
     rw [mkSpan_mapped_nonempty env hk h1 (by omega), mkSpan_mapped_nonempty env hk h3 (by omega)]
